@@ -321,6 +321,8 @@ def utf8_of(it, s: VStr) -> VBytes:
 # operators
 # ---------------------------------------------------------------------------------------------
 def binop(it, op, a: V, b: V):
+    if isinstance(a, VBool) and isinstance(b, VInt) and not isinstance(b, VBool):
+        a = it.to_int(a)  # bool OP int is int arithmetic (also for & and |)
     if isinstance(a, VBool) and isinstance(b, (VInt, VBool)) and not isinstance(op, (ast.BitAnd, ast.BitOr)):
         a = it.to_int(a)
     if isinstance(b, VBool) and isinstance(a, VInt):
